@@ -1,5 +1,6 @@
 import MidoProofs.SrcTie.Vlq
 import MidoProofs.SrcTie.VlqRead
+import MidoProofs.SrcTie.FileConformance
 import MidoProofs.SrcTie.Writer
 import MidoProofs.SrcTie.Reader
 #print axioms Mido.src_vlq_loop1
@@ -28,3 +29,5 @@ import MidoProofs.SrcTie.Reader
 #print axioms Mido.src_read_file_header
 #print axioms Mido.src_load_loop
 #print axioms Mido.src_load
+#print axioms Mido.src_load_any_encoding
+#print axioms Mido.src_save_conforms
